@@ -7,7 +7,7 @@
    another user's tokens additionally requires the administrator's own session to carry a
    hardware-token factor.  Automation certificates can be minted only by an administrator or
    automation administrator and only for configured automation identities. *)
-From KM Require Import Base.Bytes Base.Tactics Model.Auth Model.Authz Model.AdminCache Proofs.Authz Proofs.AdminCache.
+From KM Require Import Base.Bytes Base.Tactics Model.Auth Model.AuthGate Model.Routes Model.Authz Model.AdminCache Proofs.Authz Proofs.AdminCache Proofs.AuthzGate.
 Import ListNotations.
 
 (* every authorization test: allowed means own data, or administrator (and a U2F session
@@ -221,6 +221,43 @@ Proof.
   destruct (c08_roles_admin_has_source c c0 trace o H0 Hin Hk Hv) as (k & t & tp & ans & Hx & Ha).
   rewrite Hu in Hx, Ha. exact (Hnever k t tp ans Hx Ha).
 Qed.
+
+(* ---- tie to the gate and route model of C06 ---- *)
+
+(* C06 keeps users abstract (numbers); [uid] is any injective numbering of the names with
+   uid "" = 0.  The handler test of this model IS the extra rule that C06's route table declares
+   for the operation's route, whenever the C06 environment agrees with the request (web-UI mask,
+   administrator verdict, automation-administrator verdict, target) *)
+Theorem c08_authorize_is_gate_extra : forall (uid : name -> N),
+  (forall a b, uid a = uid b -> a = b) -> uid [] = 0%N ->
+  forall c env adm actor level target o,
+    env_agrees uid c env adm actor target ->
+    (authorize c adm actor level target o = Allow <-> extra_ok (extra_of o) env (uid actor) level).
+Proof. exact authorize_is_extra. Qed.
+
+(* one composed statement per route: let in by the gate with the operation's mask AND allowed by
+   the handler's test => the gate C06 declares for that route (a row of its route table) accepts
+   the request: some credential it carries proves (actor, level), the level fits the route's
+   mask, a non-GET request is same-site, the route's extra rule holds *)
+Theorem c08_gate_and_authorize : forall (uid : name -> N),
+  (forall a b, uid a = uid b -> a = b) -> uid [] = 0%N ->
+  forall c env q adm actor level target o iat,
+    env_agrees uid c env adm actor target ->
+    check_auth (e_now env) (e_limiter env) (e_deny env) (required_for c o) q = Admit (uid actor) level iat ->
+    authorize c adm actor level target o = Allow ->
+    exists r, find_row (route_of o) = Some r /\ In r route_table /\ accepts env q (rt_gate r).
+Proof. exact gate_and_authorize. Qed.
+
+Theorem c08_gate_and_authorize_may_act : forall (uid : name -> N) c env q adm actor level target o iat,
+  o <> RoleCert ->
+  env_agrees uid c env adm actor target ->
+  check_auth (e_now env) (e_limiter env) (e_deny env) (required_for c o) q = Admit (uid actor) level iat ->
+  authorize c adm actor level target o = Allow ->
+  proves (e_now env) (e_deny env) q (uid actor) level /\
+  hasb level (required_for c o) = true /\
+  (q_meth q <> GET -> origin_ok q) /\
+  may_act adm actor level (effective_target actor target o) o.
+Proof. exact gate_and_authorize_may_act. Qed.
 
 (* ---- non-vacuity ---- *)
 
